@@ -343,9 +343,24 @@ Proof.
     destruct old as [|a0 old']; [apply IE_refl; auto|].
     destruct tags as [|t [|t2 ts]]; cbn [fst snd].
     + apply IE_refl; auto.
-    + apply (set_tags_Inv ((a0, t) :: map (fun a => (a, t)) old') w HI).
+    + apply (set_tags_Inv c ((a0, t) :: map (fun a => (a, t)) old') w HI).
     + match goal with |- context [if ?c then _ else _] => destruct c end; cbn [fst snd]; [|apply IE_refl; auto].
-      apply (set_tags_Inv _ w HI).
+      apply (set_tags_Inv c _ w HI).
+  - (* Sort *)
+    destruct (get_struct w h) as [[old L]|] eqn:E1; [|apply IE_refl; auto].
+    destruct key; cbn [fst snd].
+    + apply install_IE; auto. constructor.
+    + destruct (Nat.leb (length old) 1); apply IE_refl; auto.
+  - (* AssignUniqueLabels *)
+    destruct (get_struct w h) as [[old L]|] eqn:E1; [|apply IE_refl; auto]. cbn [fst snd].
+    apply (set_tags_Inv ColLabel _ w HI).
+  - (* GetLast *)
+    destruct (get_struct w h) as [[old L]|] eqn:E1; [|apply IE_refl; auto].
+    destruct (nth_error (rev old) 0); apply IE_refl; auto.
+  - (* GetCol *)
+    destruct (get_struct w h) as [[old L]|] eqn:E1; apply IE_refl; auto.
+  - (* Composition *)
+    destruct (get_struct w h) as [[old L]|] eqn:E1; apply IE_refl; auto.
 Qed.
 
 Theorem run_Inv : forall ops w, Inv w -> Inv (run current ops w) /\ ext w (run current ops w).
